@@ -914,6 +914,18 @@ class Runner:
                 return pt.Pop(x)
             return pt.Seq(pt.Pop(f(I(7))), pt.Approve())
 
+        def sub_none_anytype():
+            @pt.Subroutine(pt.TealType.none)
+            def f(x):
+                return pt.Seq(pt.Pop(x), pt.App.globalGet(pt.Bytes("k")))
+            return pt.Seq(f(I(7)), pt.Approve())
+
+        def seq_anytype_call():
+            @pt.Subroutine(pt.TealType.anytype)
+            def g(x):
+                return pt.App.globalGet(pt.Itob(x))
+            return pt.Seq(g(I(7)), pt.Approve())
+
         builders = [
             ("elseif-value-then-none", lambda: pt.Seq(pt.Pop(pt.If(c1()).Then(I(1)).ElseIf(c2()).Then(pt.Pop(I(1)))), pt.Approve())),
             ("elseif-value-no-else", lambda: pt.Seq(pt.Pop(pt.If(c1()).Then(I(1)).ElseIf(c2()).Then(I(2))), pt.Approve())),
@@ -934,6 +946,14 @@ class Runner:
             ("store-wrong-type", lambda: pt.Seq(pt.ScratchVar(U).store(pt.Bytes("a")), pt.Approve())),
             ("globalput-none", lambda: pt.Seq(pt.App.globalPut(pt.Bytes("k"), pt.Pop(I(1))), pt.Approve())),
             ("return-none-in-main", lambda: pt.Seq(pt.If(c1()).Then(pt.Return()), pt.Approve())),
+            # expressions of type `anytype` (global state reads, loads of untyped variables, untyped routines) where NO value may be left
+            ("seq-anytype-in-the-middle", lambda: pt.Seq(pt.App.globalGet(pt.Bytes("k")), pt.Approve())),
+            ("then-anytype-no-else", lambda: pt.Seq(pt.If(c1()).Then(pt.App.globalGet(pt.Bytes("k"))), pt.Approve())),
+            ("while-anytype-body", lambda: pt.Seq(pt.While(c1()).Do(pt.App.globalGet(pt.Bytes("k"))), pt.Approve())),
+            ("for-anytype-step", lambda: pt.Seq(pt.For(pt.Pop(I(0)), c1(), pt.App.globalGet(pt.Bytes("k"))).Do(pt.Pop(I(2))), pt.Approve())),
+            ("seq-anytype-load", lambda: pt.Seq((av := pt.ScratchVar(pt.TealType.anytype)).store(I(1)), av.load(), pt.Approve())),
+            ("cond-none-then-anytype", lambda: pt.Seq(pt.Cond([c1(), pt.Pop(I(1))], [c2(), pt.App.globalGet(pt.Bytes("k"))]), pt.Approve())),
+            ("sub-none-anytype-body", sub_none_anytype), ("seq-anytype-call", seq_anytype_call),
         ]
         out = Counter()
         for name, build in builders:
